@@ -62,17 +62,17 @@ impl Num for VN {
         match valref::bin(name, &a.rv, &b.rv) {
             Spec::Exactly(rv) => {
                 let e = match (&rv, a.fe(), b.fe()) {
-                    (RV::Float(_), Some(x), Some(y)) => <Fe as Num>::bin(name, &x, &y).e,
                     // if / else select one operand: its bound is inherited
-                    (RV::Float(_), _, _) => {
-                        if name == "if" {
-                            a.e
-                        } else if matches!(a.rv, RV::None) {
+                    (RV::Float(_), _, _) if name == "if" => a.e,
+                    (RV::Float(_), _, _) if name == "else" => {
+                        if matches!(a.rv, RV::None) {
                             b.e
                         } else {
                             a.e
                         }
                     }
+                    (RV::Float(_), Some(x), Some(y)) => <Fe as Num>::bin(name, &x, &y).e,
+                    (RV::Float(_), _, _) => a.e.max(b.e),
                     _ => 0.0,
                 };
                 VN { rv, e }
@@ -459,6 +459,54 @@ fn condition_norule(t: &std::sync::Arc<Table>, rep: &mut Report, th: bool) {
     rep.bounds.push(format!("condition-with-no-rule-operator: {} piecewise trees `F if (A op B) cmp C else G` (op in % << >>) x partial_relaxed (PerOperand, None) x flat / deep / deep->flat x every variable x 8 integer points: complete", trees.len()));
 }
 
+/// `F if A cmp B else G` for all six comparisons, every pair of leaves (the differentiation
+/// variable need not occur in the condition), strict differentiation in all forms
+fn all_comparisons(t: &std::sync::Arc<Table>, rep: &mut Report) {
+    let f = |n: &str| -> u16 { t.ops.iter().position(|o| o.name == n && o.bin.is_some()).unwrap() as u16 };
+    let lv = |n: &str| if n.chars().next().unwrap().is_ascii_alphabetic() { Tree::var(n) } else { Tree::Lit(n.to_string()) };
+    let leaves = ["x", "y", "2", "1.5", "3"];
+    let cmps = [f("<"), f(">"), f("<="), f(">="), f("=="), f("!=")];
+    let (fi, fe) = (f("if"), f("else"));
+    let pairs: Vec<(Tree, Tree)> = vec![
+        (Tree::bin(f("*"), lv("x"), lv("y")), Tree::bin(f("*"), lv("3"), lv("x"))),
+        (Tree::bin(f("*"), lv("x"), lv("x")), lv("y")),
+        (lv("x"), Tree::bin(f("/"), lv("y"), lv("2"))),
+    ];
+    let mut trees = Vec::new();
+    for a in leaves {
+        for b in leaves {
+            for c in cmps {
+                let cond = Tree::bin(c, lv(a), lv(b));
+                if !cond.has_var() {
+                    continue;
+                }
+                for (fb, gb) in &pairs {
+                    trees.push(Tree::bin(fe, Tree::bin(fi, fb.clone(), cond.clone()), gb.clone()));
+                }
+            }
+        }
+    }
+    let accs = par_ranges(trees.len() as u64, 8, install_panic_hook, |st, en, acc| {
+        let r = Renderer { t, lk: LitKind::Val };
+        for i in st..en {
+            let tree = &trees[i as usize];
+            let text = r.render_default(tree);
+            match spec::read(&text, t, LitKind::Val) {
+                SpecResult::Ok(t2) if t2 == *tree => {}
+                o => {
+                    println!("MACHINERY-FAILURE property=C18 reference does not read back {text:?}: {o:?}");
+                    std::process::exit(2);
+                }
+            }
+            judge(tree, t, &text, acc);
+        }
+    });
+    for a in accs {
+        rep.absorb(a);
+    }
+    rep.bounds.push(format!("all-comparisons: {} piecewise trees `F if A cmp B else G` (six comparisons, all pairs of 5 leaves, 3 branch pairs) x 4 forms x every variable: complete", trees.len()));
+}
+
 fn name_of<'a>(tree: &Tree, t: &'a Table) -> &'a str {
     match tree {
         Tree::Un(k, _) | Tree::Bin(k, _, _) => t.ops[*k as usize].name,
@@ -529,6 +577,7 @@ pub fn run(tier: Tier) -> i32 {
     campaign(&t, Alphabet { leaves: lv(&["x", "2", "1.5"]), uns: f(&["-", "sin"], true), bins: f(&["*", "/", "if", "else", "<", ">="], false) }, &[(4, 1), (5, 0)], |tr, t| well_typed(tr, t) && has_piecewise(tr, t), &mut rep, "piecewise-n5-single-var");
     condition_arithmetic(&t, &mut rep, th);
     condition_norule(&t, &mut rep, th);
+    all_comparisons(&t, &mut rep);
     if th {
         campaign(&t, Alphabet { leaves: lv(&["x", "y", "2", "1.5"]), uns: vec![], bins: f(&["+", "*", "/", "if", "else", "<", ">"], false) }, &[(5, 0), (6, 0)], |tr, t| well_typed(tr, t) && has_piecewise(tr, t), &mut rep, "piecewise-n6");
         campaign(&t, Alphabet { leaves: lv(&["x", "2"]), uns: vec![], bins: f(&["*", "if", "else", "<", ">"], false) }, &[(7, 0)], |tr, t| well_typed(tr, t) && has_piecewise(tr, t), &mut rep, "nested-piecewise-n7");
